@@ -276,6 +276,25 @@ def templates(seed, tier):
                     "text": PROGRAM.replace("BODY", body), "dom": {"a": (0, 3)}})
     for name, text, dom in CLOSURES:
         out.append({"name": name, "role": name, "text": text, "dom": dom})
+    # activations of the LIBRARY's higher-order functions are activations too: filter / map / fold / for_each re-entered from their own callbacks
+    from checks import C18
+    for t in C18.templates("quick"):
+        if t["name"] == "list_nested_callbacks": out.append(dict(t, name="library_" + t["name"], role="library-higher-order-functions-re-entered-from-their-own-callbacks"))
+    out.append({"name": "library_filter_inside_recursive_predicate", "role": "library-higher-order-functions-re-entered-through-user-recursion", "dom": {"a": (0, 3)}, "text": '''
+smaller :: pu xs: [int], x: int -> [int] do
+    ret xs -> filter(pu y: int -> bool do y < x end)
+end
+rank :: pu xs: [int], x: int -> int do
+    ret (smaller(xs, x)) -> fold(0, pu v: int, acc: int -> int do acc + 1 end)
+end
+start :: fn do
+    xs :: [3, ?a, 2, 5]
+    print(xs -> filter(pu x: int -> bool do rank(xs, x) > 0 end))
+    print(xs -> map(pu x: int -> int do rank(xs, x) end))
+    print(xs -> filter(pu x: int -> bool do (xs -> filter(pu z: int -> bool do z > x end)) == [] end))
+    print(xs -> fold(0, pu x: int, acc: int -> int do acc + rank(xs, x) end))
+end
+'''})
     # large activations: functions whose emitted Lua comes close to Lua's 200-locals limit (K = 94 filler definitions is the largest that
     # still loads on the pinned tree) - values held across the recursive calls must still be per activation
     for K in ((60, 90) if tier == "quick" else (40, 60, 80, 86, 90, 92, 94)):
